@@ -25,11 +25,21 @@ func (m Message) TagType() byte {
 }
 
 func (m Message) MarshalNBT(w io.Writer) error {
+	// A nbt.Marshaler writes the payload only: the tag header has already been written by the caller.
+	var buf bytes.Buffer
+	enc := nbt.NewEncoder(&buf)
+	enc.NetworkFormat(true)
+	var err error
 	if m.Translate != "" {
-		return nbt.NewEncoder(w).Encode(translateMsg(m), "")
+		err = enc.Encode(translateMsg(m), "")
 	} else {
-		return nbt.NewEncoder(w).Encode(rawMsgStruct(m), "")
+		err = enc.Encode(rawMsgStruct(m), "")
 	}
+	if err != nil {
+		return err
+	}
+	_, err = w.Write(buf.Bytes()[1:]) // skip the tag type byte
+	return err
 }
 
 func (m *Message) UnmarshalNBT(tagType byte, r nbt.DecoderReader) error {
